@@ -67,4 +67,12 @@ PROPS["C16"] = {
     "nontrivial_min_tokens": 20, "sub_max_len": 3000, "sub_per_checker": 4,
 }
 
+PROPS["C03"] = {
+    "level_text": "Theorems over every Add/replace/Remove/Flush history: the running statistics equal the from-scratch ones over resident documents (invariant), a flush leaves exactly the live documents, replacement leaves no trace, and a query's answer is the exact top-k (descending) over a score map whose key set is EXACTLY the live eligible documents sharing a token with the query; the float64 scoring expression is transcribed operation by operation and compared bit-for-bit with the code (incl. the float32 conversion) on generated corpora with the real tokenizer; incremental postings/tf maps are re-derived from scratch from a verif snapshot.",
+    "level_note": "Trusted: as C02 plus math.Log (oracle table shipped by the harness, keyed by the model's own float64 argument), UAX#29/NFKC tokenisation (opaque, tokens interned by the harness via VerifTokenize), container/heap (a priority queue).",
+    "correspondence": "bm25_index.go/bm25_index_search.go ~ Model.BM25",
+    "assumptions": ["re-adding a soft-deleted id is excluded here (C06)"],
+    "nontrivial_min_tokens": 30,
+}
+
 NOT_YET = {}
